@@ -1,5 +1,4 @@
 import FitModel.Listener
-import FitModel.Generated.ListenerFacts
 import Driver.FileDef
 -- @family listener Drv.hListener
 namespace Drv
@@ -9,11 +8,9 @@ def showCell : FileCell → String
   | none => "[nil]"
   | some (T, f) => s!"[{T.gotype} {showFIT (toFIT T f)}]"
 
-/-- channel buffer size 0: on a tree where the probe found that size 0 deadlocks (pinned tree, KF-C14-1) the model is run
-with 0 and exhibits the deadlock; on a tree where size 0 works, it is modelled as the smallest working size 1 -/
-def effN (n : Nat) : Nat := if n == 0 && !Fit.Listener.Generated.buffer0Deadlocks then 1 else n
-
-def parseBuf (s : String) : Option Nat := if s == "d" then some 128 else s.toNat?.map effN
+/-- channel buffer size: `d` = the default (128); every size, 0 included, is given to the model as it is (size 0 = unbuffered
+message channel + one-slice pool, `Fit.Listener.poolSize`) -/
+def parseBuf (s : String) : Option Nat := if s == "d" then some 128 else s.toNat?
 
 def parseCmd (s : String) : Option (Cmd Msg) :=
   if s == "F" then some .file
@@ -36,13 +33,6 @@ def picker (seed : Nat) : Nat → Bool :=
     let r := mix (seed * 1000003 + i / burst) % 8
     if bias == 1 then r != 0 else if bias == 2 then r == 0 else r % 2 == 0
 
-/-- does some OnMesg run while the channel buffer size is 0 (class of KF-C14-1)? -/
-def onMesgAtZero : Nat → List (Cmd Msg) → Bool
-  | _, [] => false
-  | n, .onMesg _ :: cs => n == 0 || onMesgAtZero n cs
-  | _, .reset k :: cs => onMesgAtZero k cs
-  | n, _ :: cs => onMesgAtZero n cs
-
 def hListener : Handler := fun r =>
   match r.args with
   | _g :: s :: n :: toks =>
@@ -56,7 +46,7 @@ def hListener : Handler := fun r =>
         " ".intercalate (out ++ [if isFin st.p then "end" else if (stepP none st).isNone && (stepC processMesg st).isNone then "deadlock" else "fuel"])
       | .spec => " ".intercalate ((seqRun processMesg none true none script).map showCell ++ ["end"])
       | .prop => "n/a"
-      | .kf => if onMesgAtZero N script then "KF-C14-1" else "-"
+      | .kf => "-"   -- KF-C14-1 (buffer size 0 deadlocked, F15) is fixed in /repo: no known-finding class left in this family
     | _, _, _ => if r.mode == .model then "bad-op" else if r.mode == .kf then "-" else "n/a"
   | _ => if r.mode == .model then "bad-op" else if r.mode == .kf then "-" else "n/a"
 
